@@ -1,2 +1,233 @@
-(* L3 - placeholder while the proofs are being written *)
-From Slim Require Import Base Keys Model BitmapRank BitmapRank2 Bits.
+(* L3 - the bit-level layer: the protobuf message fields (rank/select bitmaps, packed label
+   bitmaps with big / normal / table-compressed short nodes, step or prefix arrays, leaf-prefix
+   and leaf-value VLenArrays) against the decoded node view.  Not a property of
+   properties.jsonl; it is the refinement the trie properties (C01-C04, C08-C10, C13, C18, C19)
+   rest on below the tree model, and the word-level half of C10 (no index out of range).
+   Closing theorems only; proofs in theories/BitmapRank2Proofs.v, BitmapSelectProofs.v,
+   BitsVlenProofs.v, BitsWfProofs.v, BitsEncProofs.v, BitsDecProofs.v, BitsNodeProofs.v,
+   BitsProofs.v, BitsFlatProofs.v.
+
+   Model: theories/Bits.v (encode_msg = creator.build + buildLeaves + newVLenArray;
+   get_node / get_view / left_child / vlen_get = getNode, getLeafPrefix, getLeftChildID,
+   VLenArray.get) over theories/BitmapRank.v + BitmapRank2.v (low/bitmap at word level).
+   A Go panic (index out of range, nil message) is the outcome [Panic].
+
+   Quantification: ALL flat node lists accepted by the checker [flat_wf] (every list produced by
+   Model.build is accepted: theorem L3_built_wf), all leaf-value lists, both prefix modes; no
+   size bound.  Assumed, not modelled: Go computes positions in int32, the model in N - the
+   two agree as long as no bit position, byte offset or node id reaches 2^31. *)
+From Slim Require Import Base Keys Model BitmapRank BitmapRankProofs BitmapRank2 BitmapRank2Proofs
+     BitmapSelectProofs Bits BitsVlenProofs BitsWfProofs BitsEncProofs BitsDecProofs BitsNodeProofs
+     BitsProofs BitsFlatProofs.
+From SlimGen Require Gen_Consts.
+Local Open Scope N_scope.
+
+(* ---- (a) word-level library ------------------------------------------------ *)
+
+(* Rank128 with the index of IndexRank128 (including the "(i+64)>>7" entry choice): the number
+   of set bits below i, and bit i; never a panic below 64*len(words) *)
+Theorem L3_rank128 : forall ws i,
+  words_ok ws ->
+  (forall r bit, rank128 ws (index_rank128 ws 0) i = Val (r, bit) ->
+                 r = rank_spec ws i /\ bit = N.b2n (bm_get ws i)) /\
+  (i < 64 * N.of_nat (length ws) -> exists r bit, rank128 ws (index_rank128 ws 0) i = Val (r, bit)).
+Proof.
+  intros ws i Hok. split; [intros r bit; exact (rank128_correct ws i r bit Hok)|exact (rank128_total ws i)].
+Qed.
+Print Assumptions L3_rank128.
+
+(* Select32R64 with the indexes of IndexSelect32R64: position of the i-th set bit and of the
+   next set bit (or the end of the bitmap); no panic for i below the number of set bits *)
+Theorem L3_select32 : forall ws i,
+  words_ok ws -> i < total_ones ws ->
+  exists a b, select32_r64 ws (index_select32 ws) (index_rank64_t ws 0) i = Val (a, b) /\
+              is_select ws i a /\ is_next ws a b.
+Proof. exact select32_r64_correct. Qed.
+Print Assumptions L3_select32.
+
+(* OfMany = the concatenation of the sub-bitmaps: bit k and the rank at offset k of segment i *)
+Theorem L3_of_many : forall segs,
+  Forall seg_ok segs ->
+  exists ws, of_many segs = Val ws /\ words_ok ws /\
+    N.of_nat (length ws) = nwords_for (seg_off segs (length segs)) /\
+    (forall k, bm_get ws k = true -> k < seg_off segs (length segs)) /\
+    (forall i sub sz k, nth_error segs i = Some (sub, sz) -> k < sz ->
+       (bm_get ws (seg_off segs i + k) = true <-> In k sub)) /\
+    (forall i sub sz k, nth_error segs i = Some (sub, sz) -> k <= sz ->
+       rank_spec ws (seg_off segs i + k) = N.of_nat (seg_cnt segs i + count_lt sub k)).
+Proof. exact of_many_spec. Qed.
+Print Assumptions L3_of_many.
+
+(* bitmap.Of(positions, cap) for a monotone list (duplicates allowed) *)
+Theorem L3_of_cap : forall idx cap,
+  Sorted.StronglySorted N.le idx ->
+  exists ws, of_cap idx cap = Val ws /\
+    N.of_nat (length ws) = nwords_for (bits_cap idx cap) /\ words_ok ws /\
+    (forall k, bm_get ws k = true <-> In k idx).
+Proof. exact of_cap_sorted. Qed.
+Print Assumptions L3_of_cap.
+
+(* ---- (c) VLenArray --------------------------------------------------------- *)
+Theorem L3_vlen_get : forall elts va i,
+  new_vlen elts = Val (Some va) -> (i < length elts)%nat ->
+  vlen_get va (N.of_nat i) = Val (nth i elts []).
+Proof. exact vlen_get_correct. Qed.
+Print Assumptions L3_vlen_get.
+
+Theorem L3_vlen_total : forall elts,
+  exists r, new_vlen elts = Val r /\ (r = None <-> Forall (fun e => e = []) elts).
+Proof. exact new_vlen_total. Qed.
+Print Assumptions L3_vlen_total.
+
+Theorem L3_vlen_out_of_bound : forall elts va i,
+  new_vlen elts = Val (Some va) -> blen elts <= i -> vlen_get va i = Panic.
+Proof. exact vlen_get_out_of_bound. Qed.
+Print Assumptions L3_vlen_out_of_bound.
+
+(* ---- (b) the refinement ---------------------------------------------------- *)
+
+(* creator.build and initVars never panic; ShortSize <= maxShortSize *)
+Theorem L3_encode_total : forall nodes ipfx lpfx leaves,
+  flat_wf ipfx lpfx nodes leaves = true -> nodes <> [] ->
+  exists m vs, encode_msg nodes ipfx lpfx leaves = Val m /\ init_vars m = Val vs /\ m_shortsize m <= 10.
+Proof.
+  intros nodes ipfx lpfx leaves H. apply andb_prop in H. exact (encode_total nodes ipfx lpfx leaves (proj1 H)).
+Qed.
+Print Assumptions L3_encode_total.
+
+(* getNode + label extraction + first child on the encoded message = the node of the list:
+   leaf ordinal and tail; word size, labels, first child id, step or prefix - for big, normal
+   and short inner nodes wherever they lie in the words *)
+Theorem L3_get_view : forall nodes ipfx lpfx leaves m vs,
+  flat_wf ipfx lpfx nodes leaves = true ->
+  encode_msg nodes ipfx lpfx leaves = Val m -> init_vars m = Val vs ->
+  forall p v, nth_error nodes p = Some v -> get_view m vs (N.of_nat p) = Val v.
+Proof.
+  intros nodes ipfx lpfx leaves m vs H. apply andb_prop in H.
+  exact (get_view_correct nodes ipfx lpfx leaves m vs (proj1 H)).
+Qed.
+Print Assumptions L3_get_view.
+
+(* getLeftChildID for every label bit, leftMost's and rightMost's rank: the child behind the
+   x-th label is node fc + x *)
+Theorem L3_children : forall nodes ipfx lpfx leaves m vs,
+  flat_wf ipfx lpfx nodes leaves = true ->
+  encode_msg nodes ipfx lpfx leaves = Val m -> init_vars m = Val vs ->
+  forall p id big step pfx fc labels,
+    nth_error nodes p = Some (VInner id big step pfx fc labels) ->
+    exists ith wsz from to bm plen pfxb,
+      get_node m vs (N.of_nat p) = Val (DnInner ith wsz from to bm plen pfxb) /\
+      first_child m from = Val (N.of_nat fc) /\
+      last_child m to = Val (N.of_nat (fc + length labels - 1)) /\
+      forall k, k < (if big then 257 else 17) ->
+        left_child m from to bm k =
+        Val (N.of_nat (fc - 1 + count_lt (map N.of_nat labels) k),
+             N.b2n (existsb (N.eqb k) (map N.of_nat labels))).
+Proof.
+  intros nodes ipfx lpfx leaves m vs H. apply andb_prop in H.
+  exact (children_correct nodes ipfx lpfx leaves m vs (proj1 H)).
+Qed.
+Print Assumptions L3_children.
+
+(* getIthLeafBytes *)
+Theorem L3_leaves : forall nodes ipfx lpfx leaves m,
+  flat_wf ipfx lpfx nodes leaves = true -> nodes <> [] ->
+  encode_msg nodes ipfx lpfx leaves = Val m ->
+  match leaves with
+  | None => forall l, ith_leaf_bytes m l = Val None
+  | Some elts =>
+    (Forall (fun e => e = []) elts -> forall l, ith_leaf_bytes m l = Val None) /\
+    (~ Forall (fun e => e = []) elts ->
+     (forall l, (l < length elts)%nat -> ith_leaf_bytes m (N.of_nat l) = Val (Some (nth l elts []))) /\
+     (forall l, blen elts <= l -> ith_leaf_bytes m l = Panic))
+  end.
+Proof.
+  intros nodes ipfx lpfx leaves m H. apply andb_prop in H.
+  exact (leaves_correct nodes ipfx lpfx leaves m (proj1 H)).
+Qed.
+Print Assumptions L3_leaves.
+
+(* ---- (d) no panic is reachable in the decoder on an encoded message --------- *)
+Theorem L3_no_panic : forall nodes ipfx lpfx leaves m vs,
+  flat_wf ipfx lpfx nodes leaves = true ->
+  encode_msg nodes ipfx lpfx leaves = Val m -> init_vars m = Val vs ->
+  forall p v, nth_error nodes p = Some v ->
+    (exists d, get_node m vs (N.of_nat p) = Val d) /\
+    match v with
+    | VLeaf _ ord _ => exists b, ith_leaf_bytes m (N.of_nat ord) = Val b
+    | VInner _ big _ _ _ _ =>
+      forall ith wsz from to bm plen pfxb,
+        get_node m vs (N.of_nat p) = Val (DnInner ith wsz from to bm plen pfxb) ->
+        (exists l, node_labels m from to bm = Val l) /\
+        (exists c, first_child m from = Val c) /\ (exists c, last_child m to = Val c) /\
+        (forall k, k < (if big then 257 else 17) -> exists r, left_child m from to bm k = Val r)
+    end.
+Proof. exact decoder_no_panic. Qed.
+Print Assumptions L3_no_panic.
+
+(* ---- the link to the tree model: every built trie yields a well-formed list --- *)
+Theorem L3_built_wf : forall o keys vals T,
+  build o keys vals = Ok T -> trie_wf T = true.
+Proof. exact built_trie_wf. Qed.
+Print Assumptions L3_built_wf.
+
+(* hence, for every built trie: the message exists and decodes to the trie's own node view *)
+Theorem L3_trie_refinement : forall o keys vals T r,
+  build o keys vals = Ok T -> t_root T = Some r ->
+  exists m vs, encode_trie T = Val m /\ init_vars m = Val vs /\
+    forall p v, nth_error (flat_nodes r) p = Some v -> get_view m vs (N.of_nat p) = Val v.
+Proof. exact built_trie_refinement. Qed.
+Print Assumptions L3_trie_refinement.
+
+(* ---- the constants the model hard-wires are those of the source tree --------- *)
+Example L3_consts :
+  Gen_Consts.g_innerSize = 17 /\ Gen_Consts.g_bigInnerSize = 257 /\ Gen_Consts.g_maxShortSize = 10 /\
+  Gen_Consts.g_wordSize = 4 /\ Gen_Consts.g_bigWordSize = 8 /\ Gen_Consts.g_stepLimit = 65535.
+Proof. repeat split. Qed.
+
+(* ---- non-vacuity ------------------------------------------------------------ *)
+(* a chain of 40 one-label inner nodes (labels cycling 1,2,3) and a leaf: ShortSize 2 is chosen,
+   table [0;2;8;0]; node 9 is a short node at bits [63,65) - it straddles the first word
+   boundary; node 18 is a short node at [126,128) - it ends exactly on a word boundary; every
+   node decodes to itself *)
+Fixpoint ex_chain (n id : nat) : list nview :=
+  match n with
+  | O => [VLeaf id 0 None]
+  | S n' => VInner id false 0 None (S id) [(1 + id mod 3)%nat] :: ex_chain n' (S id)
+  end.
+Definition ex_nodes : list nview := ex_chain 40 0.
+
+Example L3_short_nodes :
+  flat_wf false false ex_nodes None = true /\
+  exists m vs, encode_msg ex_nodes false false None = Val m /\ init_vars m = Val vs /\
+    m_shortsize m = 2 /\ m_shorttable m = [0; 2; 8; 0] /\
+    get_node m vs 9 = Val (DnInner 9 4 63 65 2 0 None) /\
+    get_node m vs 18 = Val (DnInner 18 4 126 128 2 0 None) /\
+    get_node m vs 1 = Val (DnInner 1 4 2 19 0 0 None) /\
+    map (fun p => get_view m vs (N.of_nat p)) (seq 0 41) = map Val ex_nodes.
+Proof.
+  split; [vm_compute; reflexivity|].
+  destruct (encode_msg ex_nodes false false None) as [m|] eqn:E; [|vm_compute in E; discriminate].
+  destruct (init_vars m) as [vs|] eqn:Ev; [|vm_compute in E; injection E as <-; vm_compute in Ev; discriminate].
+  exists m, vs. vm_compute in E. injection E as <-. vm_compute in Ev. injection Ev as <-.
+  vm_compute. repeat split.
+Qed.
+
+(* a built trie with values of unequal widths and an empty one, inner and leaf prefixes stored *)
+Definition ex_keys : list key :=
+  [ ["097"%byte]; ["097"%byte; "098"%byte; "099"%byte]; ["098"%byte; "120"%byte; "121"%byte] ].
+Definition ex_vals : option (list (list byte)) := Some [ ["001"%byte]; []; ["002"%byte; "003"%byte] ].
+Definition ex_opt : opts := {| o_dedup := false; o_inner := true; o_leaf := true |}.
+
+Example L3_built_example :
+  exists T r m vs, build ex_opt ex_keys ex_vals = Ok T /\ t_root T = Some r /\ trie_wf T = true /\
+    encode_trie T = Val m /\ init_vars m = Val vs /\
+    map (fun p => get_view m vs (N.of_nat p)) (seq 0 (length (flat_nodes r))) = map Val (flat_nodes r) /\
+    map (fun l => ith_leaf_bytes m l) [0; 1; 2] = [Val (Some ["001"%byte]); Val (Some []); Val (Some ["002"%byte; "003"%byte])] /\
+    ith_leaf_bytes m 3 = Panic.
+Proof.
+  destruct (build ex_opt ex_keys ex_vals) as [T|] eqn:E; [|vm_compute in E; discriminate].
+  vm_compute in E. injection E as <-.
+  eexists _, _, _, _. split; [reflexivity|]. split; [reflexivity|]. split; [vm_compute; reflexivity|].
+  split; [vm_compute; reflexivity|]. split; [vm_compute; reflexivity|]. vm_compute. repeat split.
+Qed.
